@@ -61,6 +61,10 @@ def corpus():
     c['field'] = ('M', lambda v, l: lambda: _field(v, l))
     c['parse_field'] = ('M', lambda v, l: lambda: parse_field('A^B', 'PID_5', version=v, validation_level=l).to_er7())
     c['segment'] = ('M', lambda v, l: lambda: _segment(v, l))
+    # fields beyond the table: of a Z segment and of a segment that ends with a field of datatype varies (their references are
+    # made up on the fly, not read from the tables); the number depends on the version so that two threads never ask the same
+    c['zfield'] = ('M', lambda v, l: lambda: _open_field('ZIN', 3 if v == '2.5' else 7, v, l))
+    c['vfield'] = ('M', lambda v, l: lambda: _open_field('QPD', 5 if v == '2.5' else 6, v, l))
     c['parse_segment'] = ('M', lambda v, l: lambda: parse_segment('PID|1', version=v, validation_level=l).to_er7())
     c['message'] = ('L', lambda v, l: lambda: _message(v, l))
     c['parse_message'] = ('L', lambda v, l: lambda: _parse(MSHONLY % v, l))
@@ -89,6 +93,13 @@ def _segment(v, l):
     s = Segment('PID', version=v, validation_level=l)
     s.pid_1 = '1'
     return s.to_er7()
+
+
+def _open_field(seg, i, v, l):
+    from hl7apy.core import Segment
+    s = Segment(seg, version=v, validation_level=l)
+    setattr(s, '%s_%d' % (seg.lower(), i), 'A')
+    return s.to_er7(), [f.name for f in s.children]
 
 
 def _message(v, l):
@@ -256,6 +267,9 @@ def harnesses(tier):
     return hs
 
 
+REEXPLORE_CAP = 6000
+
+
 def install_gran(gran):
     if gran == 'instr':
         sched.install(instruction_level_for=shared_state_functions())
@@ -360,11 +374,14 @@ def run_unit(unit, tier):
 
     try:
         n, capped = sched.explore(fresh_bodies, bound, on_exec)
-        if stats['wrote'] and bound < 2 and len(names) == 2:
+        if stats['wrote'] and bound < 2 and len(names) == 2 and not res.violations:
             install_gran('shared')
-            n2, capped2 = sched.explore(fresh_bodies, bound + 1, on_exec)
+            n2, capped2 = sched.explore(fresh_bodies, bound + 1, on_exec, max_executions=REEXPLORE_CAP)
             n += n2
             res.dims['harnesses re-explored at bound+1 because a body writes shared state'] += 1
+            if capped2:
+                # reported as what it is: the extra pass is a budgeted one, the pass at the registered bound is complete
+                res.dims['re-explorations at bound+1 stopped at the cap of %d executions' % REEXPLORE_CAP] += 1
     except HarnessError:
         if not res.violations:
             raise
